@@ -568,6 +568,141 @@ def _time_chunk_task(task, p):
     p.sample(sub, {"op": name, "time_chunkings": 31})
 
 
+def _shape_task(task, p):
+    """The same pixels presented as a cube of another rank or extent: a single pixel (1x1 cube), one row, one series
+    (time only), a (x, time) / (time, x) image, a four-dimensional stack of two cubes.  Each pixel's result depends
+    only on its own series, so wherever the operation accepts the shape its values are those of the 3 x 4 cube."""
+    import xarray as xr
+    name = task
+    sub = "shapes"
+    da, O = operations()
+    f = O[name]
+    with warnings.catch_warnings():
+        warnings.simplefilter("ignore")
+        eager = materialise(f(da))
+    da2 = da.copy(data=np.where(da.values == -9999, -9999, (da.values * 5 + 3) % 83 + 1).astype("int16"))
+    with warnings.catch_warnings():
+        warnings.simplefilter("ignore")
+        eager2 = materialise(f(da2))
+    n = 0
+
+    def sel(res, **ix):
+        return {k: v.isel({d: i for d, i in ix.items() if d in v.dims}) for k, v in res.items()}
+
+    shapes = {
+        "single pixel (time, 1, 1)": (da.isel(y=slice(1, 2), x=slice(2, 3)), lambda r: sel(r, y=slice(1, 2), x=slice(2, 3))),
+        "single pixel (1, 1, time)": (da.isel(y=slice(1, 2), x=slice(2, 3)).transpose("y", "x", "time"), lambda r: sel(r, y=slice(1, 2), x=slice(2, 3))),
+        "one row (time, 1, x)": (da.isel(y=slice(2, 3)), lambda r: sel(r, y=slice(2, 3))),
+        "one column (time, y, 1)": (da.isel(x=slice(0, 1)), lambda r: sel(r, x=slice(0, 1))),
+        "series (time,)": (da.isel(y=1, x=2, drop=True), lambda r: sel(r, y=1, x=2)),
+        "image (time, x)": (da.isel(y=1, drop=True), lambda r: sel(r, y=1)),
+        "image (x, time)": (da.isel(y=1, drop=True).transpose("x", "time"), lambda r: sel(r, y=1)),
+    }
+    for sname, (obj, pick) in shapes.items():
+        n += 1
+        try:
+            with warnings.catch_warnings():
+                warnings.simplefilter("ignore")
+                got = materialise(f(obj))
+        except Exception:
+            p.count(sub, refused=1)
+            continue
+        exp = pick(eager)
+        bad = None
+        for k in exp:
+            if k not in got:
+                bad = f"variable {k} missing"
+                break
+            e, g = exp[k], got[k]
+            if set(e.dims) != set(g.dims):
+                # dropped scalar coordinates may differ; compare on squeezed values
+                e, g = e.squeeze(drop=True), g.squeeze(drop=True)
+            if set(e.dims) != set(g.dims):
+                bad = f"{k}: dims {g.dims} vs {e.dims}"
+                break
+            g = g.transpose(*e.dims)
+            if e.dtype != g.dtype or e.shape != g.shape or not np.array_equal(e.values, g.values, equal_nan=True):
+                bad = f"{k}: values / dtype differ from the same pixels inside the 3 x 4 cube"
+                break
+        if bad:
+            p.violation(sub, {"op": name, "shape": sname}, {"kind": "shape", "op": name}, f"{name} on {sname}: {bad}")
+        else:
+            p.count(sub, handled_correctly=1)
+    # four dimensions: two cubes stacked along a leading band dimension
+    n += 1
+    try:
+        with warnings.catch_warnings():
+            warnings.simplefilter("ignore")
+            stacked = xr.concat([da, da2], dim="band").assign_attrs(da.attrs)
+            stacked.name = da.name
+            got = materialise(f(stacked))
+        for b, ref in enumerate((eager, eager2)):
+            for k in ref:
+                g = got[k].isel(band=b, drop=True).transpose(*ref[k].dims)
+                if ref[k].dtype != g.dtype or not np.array_equal(ref[k].values, g.values, equal_nan=True):
+                    p.violation(sub, {"op": name, "shape": "stack (band, time, y, x)", "band": b}, {"kind": "shape", "op": name},
+                                f"{name} on two cubes stacked along a band dimension: band {b}, variable {k} differs from the cube processed alone")
+                    raise StopIteration
+        p.count(sub, handled_correctly=1)
+    except StopIteration:
+        pass
+    except Exception:
+        p.count(sub, refused=1)
+    p.count(sub, evaluations=n, states=n, transitions=n, traces_validated_against_impl=n, nontrivial=n)
+    p.sample(sub, {"op": name, "shapes": list(shapes) + ["stack (band, time, y, x)"]})
+
+
+def _repeat_task(task, p):
+    """History on one object: the operation called three times on the same in-memory / lazy object, interleaved with
+    every other operation; the input object (values, attrs, coords, name, dims) is untouched afterwards and every
+    call returns what the first call on a fresh object returns."""
+    name = task
+    sub = "repeat_calls"
+    da, O = operations()
+    f = O[name]
+    n = 0
+    with warnings.catch_warnings():
+        warnings.simplefilter("ignore")
+        fresh = materialise(f(da.copy(deep=True)))
+        for backend in ("numpy", "dask", "float64 numpy"):
+            obj = da.copy(deep=True)
+            if backend == "dask":
+                obj = obj.chunk({"time": -1, "y": (2, 1), "x": (2, 2)})
+            if backend == "float64 numpy":
+                if name in ("whitint", "lroo", "croo"):
+                    continue
+                obj = obj.astype("float64").assign_attrs(da.attrs)
+                try:
+                    fresh_b = materialise(f(obj.copy(deep=True)))
+                except Exception:
+                    continue        # the operation does not take float64 input
+            else:
+                fresh_b = fresh
+            pristine = obj.copy(deep=True)
+            others = [o for o in O if o != name]
+            for step in range(3):
+                r = materialise(f(obj))
+                n += 1
+                msg = same(fresh_b, r)
+                if msg:
+                    p.violation(sub, {"op": name, "backend": backend, "call": step + 1}, {"kind": "repeat", "op": name},
+                                f"{name} [{backend}]: call number {step + 1} on the same object differs from the call on a fresh object: {msg}")
+                    break
+                if not (obj.dims == pristine.dims and obj.name == pristine.name and obj.attrs == pristine.attrs and obj.dtype == pristine.dtype
+                        and np.array_equal(np.asarray(obj.values), np.asarray(pristine.values), equal_nan=True)
+                        and all(np.array_equal(obj[c].values, pristine[c].values) for c in pristine.coords) and set(obj.coords) == set(pristine.coords)):
+                    p.violation(sub, {"op": name, "backend": backend, "what": "input modified"}, {"kind": "repeat", "op": name},
+                                f"{name} [{backend}] modified the object it was called on (values / attrs / coords / name)")
+                    break
+                # another operation in between
+                try:
+                    materialise(O[others[(step * 7) % len(others)]](obj))
+                except Exception:
+                    pass
+    p.count(sub, evaluations=n, states=n, transitions=n, traces_validated_against_impl=n, nontrivial=n)
+    p.sample(sub, {"op": name, "calls": 3, "backends": ["numpy", "dask", "float64 numpy"]})
+
+
 def _perm_task(task, p):
     """Permuting the pixels of a 2x3 grid permutes the results (each pixel depends only on its own series)."""
     import pandas as pd
@@ -828,7 +963,7 @@ def _dispatch(task, p):
 
 def _dispatch_inner(kind, t, p):
     {"lazy_real": _lazy_real_task, "dasksched": _dasksched_task, "config": _config_task, "time_chunk": _time_chunk_task,
-     "perm": _perm_task, "vprange": _vprange_task, "joint": _joint_task}[kind](t, p)
+     "perm": _perm_task, "vprange": _vprange_task, "joint": _joint_task, "shape": _shape_task, "repeat": _repeat_task}[kind](t, p)
 
 
 def run(ctx):
@@ -878,8 +1013,10 @@ def run(ctx):
             tasks.append(("perm", (name, lo, lo + (180 if ctx.thorough() else 60))))
     tasks += [("vprange", t) for t in vprange_tasks(ctx)]
     tasks += [("joint", nm) for nm in joint_pairs()[1]]
+    tasks += [("shape", nm) for nm in names if nm not in ("zonal_mean", "zonal_mean_f64", "whits_sg_p", "whitsvc_lc")]
+    tasks += [("repeat", nm) for nm in names]
     # longest first
-    weight = {"config": 5, "dasksched": 4, "lazy_real": 6, "perm": 3, "time_chunk": 2, "vprange": 1, "joint": 2}
+    weight = {"config": 5, "dasksched": 4, "lazy_real": 6, "perm": 3, "time_chunk": 2, "vprange": 1, "joint": 2, "shape": 2, "repeat": 2}
     tasks.sort(key=lambda t: -weight[t[0]])
     ctx.pmap(_dispatch, tasks)
     lap("forked_subchecks")
@@ -914,6 +1051,10 @@ def replay(sub, case, p):
         run_threads_child(p)
     elif k == "joint":
         _joint_task(case["op"], p)
+    elif k == "shape":
+        _shape_task(case["op"], p)
+    elif k == "repeat":
+        _repeat_task(case["op"], p)
     else:
         vprange_all(_wrap(p))
 
